@@ -4,6 +4,8 @@ Checker.check(pkt, key) on the compiled model (direct and after save/load) is co
 reference interpreter's check on the generator's AST for all pairs of names up to a length bound
 (sampled above a limit), each pair also with an implicit-digest component appended.
 """
+import time
+
 from . import lvs, monitors, refcodec as rc
 from .common import raising_site
 
@@ -88,7 +90,11 @@ def run(ctx):
         signed_rules = {r['name'] for r in schema['rules'] if r['signers']}
         budget = 6000 * (len(model.nodes) + 1) * (L + 2)
         nfail = 0
+        t_schema = time.time()
         for pi, (pkt, key) in enumerate(pairs):
+            if pi % 64 == 0 and time.time() - t_schema > (20 if ctx.quick else 60):
+                ctx.event('schema-abandoned-slow')       # generator guard only
+                break
             exp = ref.check(pkt, key)
             variants = [(pkt, key, '')]
             if pi % 7 == 0:
